@@ -228,6 +228,21 @@ CLAIMED = {
                 "exercised not proved).",
         "technique": "Coq proof (unreachability of modelled panic outcomes, validity premises) + per-process cross-product correspondence by vm_compute",
     },
+    "C09": {
+        "text": "Theorem C09_decision_table (Props/C09.v): for every servable configuration, every list of system "
+                "rules (5 metric types x 2 strategies, any threshold), any injected load/CPU readings and every "
+                "history of inbound and outbound entries, exits and clock advances, an inbound entry is rejected "
+                "exactly when some rule trips on readings computed from the outcomes so far (QPS / concurrency / "
+                "avg RT at or above the threshold; load / CPU strictly above and, under BBR, only beyond the "
+                "capacity estimate), the block names the first tripping rule and carries the observed value, and "
+                "outbound entries are untouched. The readings are proved equal to direct computations from the "
+                "event history (C02 sums and minimum, plus the new max-single-bucket theorem).",
+        "design_ref": "DESIGN.md §6 C09",
+        "note": "Trusted: Coq kernel + VM; stdlib classical axioms via Flocq; load / CPU injected through the hook; "
+                "one process per case; float arithmetic of the readings mirrored with Flocq and compared bit-for-bit "
+                "(value carried by the block).",
+        "technique": "Coq proof (refinement to a decision table over history-derived readings) + per-process correspondence by vm_compute",
+    },
 }
 
 REASON_TODO = "not yet covered by the Coq development in this revision (planned, see DESIGN.md §6); no check is claimed"
@@ -283,7 +298,7 @@ def main():
 
 
 NA = {}
-HOOK_COMMITS = ["28ce0b4", "ef616a0", "1b90b9f", "34a6ecc"]
+HOOK_COMMITS = ["28ce0b4", "ef616a0", "1b90b9f", "34a6ecc", "960e001", "6201ed7", "7bc2941"]
 
 if __name__ == "__main__":
     main()
